@@ -635,6 +635,20 @@ func (fr *Frame) oblige(st *State, kind string, phi string, pos token.Pos) {
 		Props: fr.curProps, MustFail: strings.Contains(kind, "MUST-FAIL"), Query: b.String(), Pos: p})
 }
 
+// setElemHeap installs a new element heap (one backing array changed) under a fresh name and states its frame in
+// accessor form, so that facts written with elt(...) about other arrays carry over the update.
+func (fr *Frame) setElemHeap(st *State, key string, elem types.Type, old, newTerm, changedRef string) {
+	c := fr.ctx
+	name := c.fresh("EH", c.heapSrt[key])
+	fr.assume(st, fmt.Sprintf("(= %s %s)", name, newTerm))
+	ef := c.eltFn(elem)
+	c.n++
+	sq, kq := fmt.Sprintf("s_q%d", c.n), fmt.Sprintf("k_q%d", c.n)
+	fr.assume(st, fmt.Sprintf("(forall ((%s Slice) (%s Int)) (! (=> (not (= (sl.arr %s) %s)) (= (%s %s %s %s) (%s %s %s %s))) :pattern ((%s %s %s %s))))",
+		sq, kq, sq, changedRef, ef, name, sq, kq, ef, old, sq, kq, ef, name, sq, kq))
+	st.heap[key] = name
+}
+
 // obligeAt names a safety/frame obligation by the source text of the expression it guards (stable under edits elsewhere).
 func (fr *Frame) obligeAt(st *State, kind, want, phi string, pos token.Pos) {
 	fr.oblige(st, kind+"["+fr.ctx.srcAt(pos, want)+"]", phi, pos)
@@ -882,7 +896,7 @@ func (fr *Frame) store(st *State, a Addr, v Val, pos token.Pos) {
 		inner := fmt.Sprintf("(select %s %s)", arr, a.Ref)
 		old := fmt.Sprintf("(select %s %s)", inner, a.Idx)
 		nv := c.pathSet(old, a.Root, a.Path, v.T)
-		st.heap[key] = fmt.Sprintf("(store %s %s (store %s %s %s))", arr, a.Ref, inner, a.Idx, nv)
+		fr.setElemHeap(st, key, a.Root, arr, fmt.Sprintf("(store %s %s (store %s %s %s))", arr, a.Ref, inner, a.Idx, nv), a.Ref)
 		return
 	}
 	if a.Local != nil {
@@ -1939,6 +1953,8 @@ func (fr *Frame) step(st *State, in ssa.Instruction) bool {
 			s, i := fr.val(x.X), fr.val(x.Index)
 			fr.obligeAt(st, "safety.index", "index", fmt.Sprintf("(and (<= 0 %s) (< %s (slen %s)))", i.T, i.T, s.T), x.Pos())
 			fr.vals[x] = Val{fmt.Sprintf("(sat %s %s)", s.T, i.T), x.Type()}
+			// name the decode step at every offset the code looks at (instance of the step axiom; gives the chain axioms their trigger)
+			fr.assume(st, fmt.Sprintf("(= (step %s %s) (+ %s (width %s %s)))", s.T, i.T, i.T, s.T, i.T))
 			return true
 		}
 		if mt, ok := x.X.Type().Underlying().(*types.Map); ok {
@@ -2017,7 +2033,8 @@ func (fr *Frame) step(st *State, in ssa.Instruction) bool {
 			}
 			fr.vals[x] = Val{wrapUnsigned(x.Type(), v.T), x.Type()}
 		case from == "Int" && to == "Str":
-			fr.vals[x] = Val{fmt.Sprintf("(str1 %s)", v.T), x.Type()}
+			// string(r): the UTF-8 encoding of the code point (1..4 bytes; U+FFFD, 3 bytes, for an invalid one)
+			fr.vals[x] = Val{fmt.Sprintf("(strofrune %s)", v.T), x.Type()}
 		default:
 			fr.vals[x] = Val{c.fresh("conv", to), x.Type()}
 		}
@@ -2155,7 +2172,7 @@ func (fr *Frame) step(st *State, in ssa.Instruction) bool {
 		r := fr.newRef(st, "mkslice")
 		key, arr := c.elemHeap(st, sl.Elem())
 		es := c.sortOf(sl.Elem())
-		st.heap[key] = fmt.Sprintf("(store %s %s ((as const (Array Int %s)) %s))", arr, r, es, c.zero(sl.Elem()))
+		fr.setElemHeap(st, key, sl.Elem(), arr, fmt.Sprintf("(store %s %s ((as const (Array Int %s)) %s))", arr, r, es, c.zero(sl.Elem())), r)
 		c.sortOf(x.Type())
 		fr.vals[x] = Val{fmt.Sprintf("(mk-slice %s 0 %s)", r, n.T), x.Type()}
 		return true
@@ -2262,7 +2279,7 @@ func (fr *Frame) call(st *State, x *ssa.Call) bool {
 			geta := fmt.Sprintf("(%s %s %s %s)", ef, arr, a.T, q)
 			getb := fmt.Sprintf("(%s %s %s (- %s %s))", ef, arr, b.T, q, la)
 			fr.assume(st, fmt.Sprintf("(forall ((%s Int)) (! (and (=> (and (<= 0 %s) (< %s %s)) (= (select %s %s) %s)) (=> (and (<= %s %s) (< %s (+ %s %s))) (= (select %s %s) %s))) :pattern ((select %s %s))))", q, q, q, la, inner, q, geta, la, q, q, la, lb, inner, q, getb, inner, q))
-			st.heap[key] = fmt.Sprintf("(store %s %s %s)", arr, nref, inner)
+			fr.setElemHeap(st, key, sl.Elem(), arr, fmt.Sprintf("(store %s %s %s)", arr, nref, inner), nref)
 			setRes(Val{fmt.Sprintf("(mk-slice %s 0 (+ %s %s))", nref, la, lb), x.Type()})
 		case "delete":
 			mt := x.Call.Args[0].Type().Underlying().(*types.Map)
@@ -2308,6 +2325,7 @@ func (fr *Frame) call(st *State, x *ssa.Call) bool {
 			if sl.Low != nil {
 				lo = fr.val(sl.Low).T
 			}
+			fr.assume(st, fmt.Sprintf("(= (step %s %s) (+ %s (width %s %s)))", s.T, lo, lo, s.T, lo))
 			emptyCase := fmt.Sprintf("(>= %s (slen %s))", lo, s.T)
 			r := fmt.Sprintf("(ite %s 65533 (rune %s %s))", emptyCase, s.T, lo)
 			w := fmt.Sprintf("(ite %s 0 (width %s %s))", emptyCase, s.T, lo)
@@ -2361,7 +2379,7 @@ func (fr *Frame) call(st *State, x *ssa.Call) bool {
 			c.n++
 			q := fmt.Sprintf("k_q%d", c.n)
 			fr.assume(st, fmt.Sprintf("(forall ((%s Int)) (! (=> (and (<= 0 %s) (< %s (NL %s))) (= (select %s %s) (substr %s (LS %s %s) (LE %s %s)))) :pattern ((select %s %s))))", q, q, q, sv.T, inner, q, sv.T, sv.T, q, sv.T, q, inner, q))
-			st.heap[key] = fmt.Sprintf("(store %s %s %s)", arr, arrRef, inner)
+			fr.setElemHeap(st, key, sl.Elem(), arr, fmt.Sprintf("(store %s %s %s)", arr, arrRef, inner), arrRef)
 			c.sortOf(x.Type())
 			setRes(Val{fmt.Sprintf("(mk-slice %s 0 (NL %s))", arrRef, sv.T), x.Type()})
 			return true
@@ -2383,6 +2401,29 @@ func (fr *Frame) call(st *State, x *ssa.Call) bool {
 	case "unicode/utf8.RuneLen":
 		setRes(Val{fmt.Sprintf("(runelen %s)", fr.val(x.Call.Args[0]).T), x.Type()})
 		return true
+	case "strings.TrimSuffix", "strings.TrimPrefix":
+		// literal suffix/prefix only: the test is unrolled over its bytes
+		if k, ok := x.Call.Args[1].(*ssa.Const); ok && k.Value != nil && k.Value.Kind() == constant.String {
+			lit := constant.StringVal(k.Value)
+			sv := fr.val(x.Call.Args[0]).T
+			n := len(lit)
+			conds := []string{fmt.Sprintf("(>= (slen %s) %d)", sv, n)}
+			for i := 0; i < n; i++ {
+				if full == "strings.TrimSuffix" {
+					conds = append(conds, fmt.Sprintf("(= (sat %s (+ (- (slen %s) %d) %d)) %d)", sv, sv, n, i, lit[i]))
+				} else {
+					conds = append(conds, fmt.Sprintf("(= (sat %s %d) %d)", sv, i, lit[i]))
+				}
+			}
+			cut := fmt.Sprintf("(substr %s 0 (- (slen %s) %d))", sv, sv, n)
+			if full == "strings.TrimPrefix" {
+				cut = fmt.Sprintf("(substr %s %d (slen %s))", sv, n, sv)
+			}
+			r := c.fresh("trimmed", "Str")
+			fr.assume(st, fmt.Sprintf("(= %s (ite (and %s) %s %s))", r, strings.Join(conds, " "), cut, sv))
+			setRes(Val{r, x.Type()})
+			return true
+		}
 	case "strings.TrimSpace":
 		setRes(Val{fmt.Sprintf("(trimspace %s)", fr.val(x.Call.Args[0]).T), x.Type()})
 		return true
